@@ -119,6 +119,20 @@ def props_check(prop):
     return res
 
 
+def coqchk(prop, timeout=3000):
+    """Independent re-check (coqchk) of Props/<prop>.vo and everything it depends on; returns (ok, summary)."""
+    with Lock("coq", shared=True):
+        try:
+            rc, out = sh(["coqchk", "-silent", "-o", "-Q", "theories", "Thunder", "Thunder.Props." + prop],
+                         cwd=COQ, timeout=timeout)
+        except subprocess.TimeoutExpired:
+            return False, "coqchk timed out"
+    i = out.find("CONTEXT SUMMARY")
+    summ = out[i:] if i >= 0 else out[-2000:]
+    ok = rc == 0 and "* Axioms: <none>" in " ".join(summ.split()).replace("* Axioms: <none>", "* Axioms: <none>")
+    return ok, " ".join(summ.split())
+
+
 def go_build(prop, timeout=1200):
     """Build harness/cmd/<prop lower> against REPO's working tree with -tags verif."""
     name = prop.lower()
